@@ -19,7 +19,7 @@ From PV Require Model.Resolve.
 Import ListNotations.
 Open Scope Z_scope.
 
-Definition protoc_cfg : cfg := mkCfg true true.
+Definition protoc_cfg : cfg := mkCfg true true true.
 
 (* ------------------------------------------------------------------------------------------ *)
 (* stage 1 on the source tree: numbers, ranges, names as written *)
@@ -208,8 +208,8 @@ Definition spec_compile_file (st : cstate) (f : sfile) : cstate * option dfile :
         else
           let '(d2, e3) := options_file protoc_cfg (st_done st) d1 in
           if negb (no_errs e3) then fail st1
-          else if negb (no_errs (validate_options protoc_cfg (st_done st) d2)) then fail st1
-          else (mkCState T X (st_done st ++ [mkCFile (sf_name f) d2 (file_syms d2)]) (st_failed st), Some d2)
+          else if negb (no_errs (validate_options protoc_cfg (st_done st) (file_xdecls f) d2)) then fail st1
+          else (mkCState T X (st_done st ++ [mkCFile (sf_name f) d2 (file_syms d2) (file_xdecls f)]) (st_failed st), Some d2)
       end.
 
 Fixpoint spec_compile_files (st : cstate) (fs : list sfile) : list (option dfile) :=
